@@ -399,11 +399,19 @@ class Parser:
                     raise JSONPathSyntaxError(
                         "leading zero in index selector", token=stream.current
                     )
+                try:
+                    index = int(stream.current.value)
+                except ValueError:
+                    # The lexer's integer token includes exponent notation.
+                    raise JSONPathSyntaxError(
+                        f"invalid index selector {stream.current.value!r}",
+                        token=stream.current,
+                    ) from None
                 list_items.append(
                     IndexSelector(
                         env=self.env,
                         token=stream.current,
-                        index=int(stream.current.value),
+                        index=index,
                     )
                 )
             elif stream.current.kind == TOKEN_BARE_PROPERTY:
